@@ -11,8 +11,8 @@ printed rationals are compared byte for byte with
     scale, sort_rows, transpose and product in storage order, remote rows, Gershgorin) and
   * the SERIAL kernels of Kernels.v/MatOps.v applied to the global matrix and cut along the
     partition (transpose, product, (A^T)x, (AB)x, copy to another backend).
-Oracles: Gershgorin estimate = serial value on every rank ("gersh_spec"); power-method estimate
-bitwise identical on all ranks.
+Oracles: Gershgorin estimate = serial value on every rank ("gersh_spec", also with 2..5 OpenMP threads per
+rank: "gersht"); power-method estimate bitwise identical on all ranks.
 """
 import random
 from fractions import Fraction as F
@@ -91,12 +91,34 @@ def cases(tier, seed):
         """ops that need a square matrix with the same row and column partition"""
         if n == 0: return
         P = fmt_ivec(p)
-        # Gershgorin: every row has a diagonal entry; scaled variant: power-of-two diagonal
+        # Gershgorin, (a) every row has a diagonal entry; scaled variant: power-of-two diagonal
         A = gen.dycrs(r, n, n, empty_rows=False)
         A = [[(c, v) for c, v in rw if c != i] + [(i, r.choice([F(1), F(2), F(4), F(-2), F(1, 2)]))] for i, rw in enumerate(A)]
         for rw in A: r.shuffle(rw)
         add(np_, "gersh", 0, fmt_crs(n, n, A), P)
         add(np_, "gersh", 1, fmt_crs(n, n, A), P)
+        # (b) rows WITHOUT a stored diagonal entry (dia must fall back to the identity for that row, whatever the
+        # previous row of the same rank / thread had: /repo 18c5201), duplicate diagonal entries (the last one counts),
+        # empty rows; small diagonals next to heavy diagonal-free rows so that a stale dia changes the maximum
+        B = gen.dycrs(r, n, n, dups=(r.random() < 0.3))
+        B2 = []
+        for i, rw in enumerate(B):
+            rw = [(c, v) for c, v in rw if c != i]
+            k = r.random()
+            if k < 0.45:                                   # no diagonal entry; make the row heavy
+                rw = rw + [((i + 1 + r.randrange(n - 1)) % n, F(r.choice([3, 5, -6, 7])))] if n > 1 else rw
+            elif k < 0.9:
+                rw = rw + [(i, r.choice([F(1, 4), F(1, 2), F(-1, 2), F(2), F(4), F(-8)]))]
+            else:                                          # duplicate diagonal: the LAST one is the scaling
+                rw = rw + [(i, r.choice([F(1, 4), F(2)])), (i, r.choice([F(1, 2), F(-4)]))]
+            if r.random() < 0.5: r.shuffle(rw)
+            B2.append(rw)
+        b2 = fmt_crs(n, n, B2)
+        add(np_, "gersh", 1, b2, P)
+        add(np_, "gersht", 1, r.choice([2, 3, 4]), b2, P)
+        if r.random() < 0.5:
+            add(np_, "gersh", 0, b2, P)
+            add(np_, "gersht", r.choice([0, 1]), r.choice([2, 3, 5]), fmt_crs(n, n, A), P)
         if r.random() < 0.35:
             M = gen.dyadic_spd(r, n)
             add(np_, "power", r.choice([0, 1]), r.choice([1, 2, 5]), fmt_crs(n, n, M), P)
@@ -129,9 +151,11 @@ def cases(tier, seed):
 
 
 def spec_line(line):
-    """model-only line giving the serial (specified) value for an op whose faithful model is rank-local"""
+    """model-only line giving the SPECIFIED value (serial estimate of the assembled matrix on every rank) for the
+    Gershgorin ops; the implementation must agree with the rank-by-rank model AND with this line"""
     cid, op, payload = line.split(" ", 2)
     if op == "gersh": return "%s gersh_spec %s" % (cid, payload)
+    if op == "gersht": return "%s gersht_spec %s" % (cid, payload)
     return None
 
 
@@ -176,7 +200,7 @@ def run(ctx, cases_override=None):
                 if a != b:
                     ctx["stats"]["oracle_fail"] += 1
                     fails.append(dict(kind="counterexample", case=l, impl=a, model=model.get(cid), op=op, size=len(l), np=np_,
-                                      oracle=dict(op="gersh_spec", expected=b, got=a),
+                                      oracle=dict(op=op + "_spec", expected=b, got=a),
                                       theorem="C11 collective scalar: Gershgorin spectral-radius estimate identical on all "
                                               "ranks and equal to the serial value (%d ranks)" % np_))
         # ---- oracle: power-method estimate bitwise identical on all ranks
@@ -198,19 +222,22 @@ def run(ctx, cases_override=None):
 
 
 def classify(fail):
-    """signature of the known finding: the distributed Gershgorin estimate is the rank-LOCAL maximum
-    (no MPI_MAX reduction): the implementation agrees with the faithful rank-local model, the maximum over
-    the ranks is the serial value, and some rank reports a smaller value."""
+    """diagnostic signatures for the Gershgorin oracle.  F-C11-gershgorin-rank-local is FIXED (/repo ed6ca09, 18c5201):
+    nothing is suppressed any more, a recurrence is a VIOLATION; the signature only names what came back:
+      rank-local-maximum-not-reduced : the ranks report different values, the largest one is the serial value;
+      row-scaling-differs            : every rank reports the same value, but not the serial one (e.g. stale dia)."""
     sig = {}
     o = fail.get("oracle") or {}
-    if fail.get("op") == "gersh" and o.get("op") == "gersh_spec" and fail.get("impl") and o.get("expected"):
+    if fail.get("op") in ("gersh", "gersht") and o.get("op", "").endswith("_spec") and fail.get("impl") and o.get("expected"):
         try:
             got = [F(v) for v in fail["impl"].split(" ; ")]
             exp = [F(v) for v in o["expected"].split(" ; ")]
-            if (len(got) == len(exp) and fail["impl"] == fail.get("model") and max(got) == exp[0]
-                    and any(g < exp[0] for g in got)):
+            if len(got) == len(exp) and max(got) == exp[0] and any(g < exp[0] for g in got):
                 sig = dict(site="mpi-spectral_radius-gershgorin", defect="rank-local-maximum-not-reduced",
-                           impl_matches_faithful_model=True)
+                           impl_matches_faithful_model=(fail["impl"] == fail.get("model")))
+            elif len(got) == len(exp) and len(set(got)) == 1:
+                sig = dict(site="mpi-spectral_radius-gershgorin", defect="row-scaling-differs",
+                           impl_matches_faithful_model=(fail["impl"] == fail.get("model")))
         except Exception:
             pass
     return sig
